@@ -274,9 +274,70 @@ def features(case: dict, res: dict) -> list[str]:
     return f
 
 
+SHARED_TEXTS = [
+    'route 10.0.0.0/24 next-hop 1.2.3.4 aigp 10 community [ 1:1 ]',
+    'route 2001:db8::/32 next-hop 2001:db8::1 aigp 4294967296 med 5',
+    'route 10.0.0.0/24 next-hop 1.2.3.4 as-path [ 70000 65001 ] aggregator ( 70000:1.1.1.1 ) local-preference 7',
+    'attributes next-hop 1.2.3.4 aigp 1 large-community [ 1:2:3 ] nlri 10.0.0.0/24 10.0.1.0/24 10.0.2.0/25',
+]
+
+
+def shared_collection(ctx: Ctx) -> None:
+    """One route of the API is ONE Route object handed to the outgoing RIB of every neighbor it is for: the same
+    attribute collection is packed for sessions that differ in what they may be sent (AIGP enabled or not, 2- or
+    4-octet AS, iBGP or eBGP, ADD-PATH, 4096 or 65535).  Whatever order the sessions are served in, each gets every
+    route and exactly the attributes IT must get (RFC 7311 3.3 for AIGP; 6793 for the AS4_ pair; 4271 5.1.5 for LOCAL_PREF)."""
+    from harness import fieldsrig as fr
+
+    rig = fr.Rig()
+    try:
+        for text in SHARED_TEXTS:
+            kind = text.split(' ')[0]
+            routes = rig.cfg.parse_route_text(text)
+            want_n = len(routes)
+            for name, order in (('forward', list(rig.shapes)), ('backward', list(reversed(rig.shapes))), ('twice', list(rig.shapes) + list(rig.shapes))):
+                # fresh Route objects per order: what an earlier order left on them must not help
+                routes = rig.cfg.parse_route_text(text)
+                for sh in order:
+                    ctx.evaluations += 1
+                    ctx.count('shared-collection')
+                    try:
+                        msgs = rig.encode(sh, routes)
+                    except Exception as e:  # noqa: BLE001
+                        ctx.failures.append(Failure('pack-case', {'shared-collection': 'raises', 'shape': sh.kind}, {'shared': True, 'text': text, 'order': name, 'shape': sh.name}, f'{text!r} for {sh.name} ({name}): {type(e).__name__}: {e}'))
+                        return
+                    seen_nlri = 0
+                    problem = ''
+                    for m in msgs:
+                        if len(m) > sh.size:
+                            problem = f'a message of {len(m)} octets on a session of {sh.size}'
+                        _, attrs, nlri = fr.split_update(m[19:])
+                        codes = {c for _, c, _ in attrs}
+                        if (26 in codes) != (('aigp ' in text) and (sh.ibgp or sh.aigp)):
+                            problem = f'AIGP {"sent" if 26 in codes else "not sent"} to a session {"with" if (sh.ibgp or sh.aigp) else "without"} it'
+                        if (5 in codes) != sh.ibgp:
+                            problem = f'LOCAL_PREF {"sent" if 5 in codes else "not sent"} on an {"iBGP" if sh.ibgp else "eBGP"} session'
+                        if 17 in codes and sh.asn4:
+                            problem = 'AS4_PATH sent on a 4-octet session'
+                        if 'as-path [ 70000' in text and not sh.asn4 and 17 not in codes:
+                            problem = 'no AS4_PATH for a 4-octet AS on a 2-octet session'
+                        seen_nlri += 1 if (nlri or 14 in codes) else 0
+                    if not problem and not msgs:
+                        problem = 'nothing was generated'
+                    if problem:
+                        canon = {'shared-collection': problem.split(' ')[0], 'kind': kind}
+                        if not any(f.canon == canon for f in ctx.failures):
+                            ctx.failures.append(Failure('pack-case', canon, {'shared': True, 'text': text, 'order': name, 'shape': sh.name}, f'{text!r}, sessions served {name}: for {sh.name}: {problem}'))
+                    else:
+                        ctx.nontrivial(['shared', text, name, sh.name])
+    finally:
+        rig.close()
+
+
 def run(ctx: Ctx) -> None:
     rng = ctx.rng
     quick = ctx.tier == 'quick'
+    shared_collection(ctx)
     ncases = 6000 if quick else 150000
     ctx.rule = (
         'one case = one real UpdateCollection (IPv4/IPv6 unicast+multicast INET NLRIs, masks incl. every byte-length boundary, 0-4 MP next hops, with/without ADD-PATH, '
@@ -445,6 +506,14 @@ def describe(canon: list, case: dict, res: dict) -> str:
 
 def replay(path: str) -> int:
     data = json.loads(open(path).read())
+    if data.get('replay', {}).get('shared'):
+        ctx = Ctx(prop=PROP, tier='quick', seed=0, rng=__import__('random').Random(0))
+        ctx.deadline = time.time() + 120
+        shared_collection(ctx)
+        for f in ctx.failures:
+            print('FAIL  :', f.what[:400])
+        print('holds :', not ctx.failures)
+        return 1 if ctx.failures else 0
     case = data['replay']['case'] if 'replay' in data else data['case']
     res, canons = evaluate(case)
     print('case     :', json.dumps(brief(case)))
